@@ -1,6 +1,6 @@
 (* C13: facts about the UCI main-loop model (Model/Uci.v), for every engine state and every remaining input. *)
 From Coq Require Import NArith ZArith List Bool String Ascii Lia.
-From JV Require Import Gen.Consts Model.Chess Model.TT Model.Search Model.SearchChess Model.Fen Model.Go Model.Uci.
+From JV Require Import Gen.Consts Model.Chess Model.TT Model.Search Model.SearchChess Model.Fen Model.Go Model.Uci Proofs.PerftProofs.
 Import ListNotations.
 Local Open Scope string_scope.
 Local Open Scope list_scope.
@@ -169,4 +169,36 @@ Proof.
   intros NE CMD ARG PP. rewrite step_ucinewgame.
   rewrite (step_position extra _ P input' g rep NE CMD ARG PP), (step_position extra init_ustate P input' g rep NE CMD ARG PP).
   reflexivity.
+Qed.
+
+(* ---- the perft command: the per-move lines add up to the total it reports ---- *)
+Lemma perft_fold_lines (f : game -> N) g ms : forall a,
+  fold_left (fun acc m => match make_search_move g m with Made g' => (acc + f g')%N | _ => acc end) ms a =
+  (a + sumN (map snd (flat_map (fun m => match make_search_move g m with
+        | Made g' => [((nth (N.to_nat (mfrom m)) SQUARE_STRINGS "" ++ nth (N.to_nat (mto m)) SQUARE_STRINGS "")%string, f g')]
+        | _ => [] end) ms)))%N.
+Proof.
+  induction ms as [|m r IH]; intros a; cbn [fold_left flat_map map].
+  - change (sumN []) with 0%N. rewrite N.add_0_r. reflexivity.
+  - rewrite IH, map_app, sumN_app. destruct (make_search_move g m) as [|g'|]; cbn [map snd]; rewrite ?sumN_cons; change (sumN []) with 0%N; lia.
+Qed.
+
+Lemma perft_lines_sum d g : (2 <= d)%N -> sumN (map snd (perft_lines d g)) = perft_n d g.
+Proof.
+  intros D. unfold perft_lines. destruct (N.leb_spec d 1) as [L|_]; [lia|].
+  unfold perft_n. destruct (N.to_nat d) as [|[|k]] eqn:E; [lia|lia|].
+  replace (N.to_nat (d - 1)) with (S k) by lia.
+  change (perft (S (S k)) g) with (fold_left (fun acc m => match make_search_move g m with Made g' => (acc + perft (S k) g')%N | _ => acc end) (generate_moves g true) 0%N).
+  rewrite (perft_fold_lines (perft (S k)) g (generate_moves g true) 0%N). rewrite N.add_0_l. reflexivity.
+Qed.
+
+Lemma step_perft extra u line input t r d :
+  trim line <> "" -> lower_str (first_token (trim line)) = "perft" -> rest_tokens (trim line) = t :: r ->
+  t <> "simple" -> parse_uint 256 t = Some d -> (1 <= d)%N ->
+  uci_step extra u line input = (u, [OPerft d (perft_lines d (u_game u)) (perft_n d (u_game u))], None, input, Continue).
+Proof.
+  intros NE CM RT NS PU D. unfold uci_step. cbn zeta.
+  destruct (String.eqb_spec (trim line) "") as [E|_]; [contradiction|]. rewrite CM. cbn [String.eqb Ascii.eqb Bool.eqb orb].
+  rewrite RT. destruct (String.eqb_spec t "simple") as [E|_]; [contradiction|]. rewrite PU.
+  destruct (N.eqb_spec d 0) as [E|_]; [lia|]. reflexivity.
 Qed.
